@@ -301,7 +301,7 @@ fn structured_cases(ctx: &Ctx, scratch: &std::path::Path) -> Vec<Case> {
         for (cn, ch) in [("2-byte", "\u{e4}"), ("3-byte", "\u{20ac}"), ("4-byte", "\u{1f600}")] {
             add(
                 &format!("size/macro-line-too-long-with-{}-characters/offset-{}", cn, lead),
-                format!(".macro m\n\t.db \"{}{}\", {} ; {}\n.endm\n\tm {}\n", "x".repeat(lead), ch.repeat(40), "@0, ".repeat(3000), ch.repeat(30), "1+".repeat(40)),
+                format!(".macro m\n\t.db \"{}{}\", {} ; {}\n.endm\n\tm {}\n", "x".repeat(lead), ch.repeat(40), "@0, ".repeat(3000), ch.repeat(30), format!("{}1", "1+".repeat(40))),
             );
         }
     }
